@@ -19,7 +19,7 @@ impl Controller for FormGetMethodController {
         }
 
         let path = boxed_path.unwrap();
-        path == "/form-get-method" && request.method == METHOD.get
+        path == "/form-get-method" && (request.method == METHOD.get || request.method == METHOD.head || request.method == METHOD.options)
     }
 
     fn process(_request: &Request, mut response: Response, _connection: &ConnectionInfo) -> Response {
@@ -70,7 +70,7 @@ impl FormGetMethodController {
         }
 
         let path = boxed_path.unwrap();
-        path == "/form-get-method" && request.method == METHOD.get
+        path == "/form-get-method" && (request.method == METHOD.get || request.method == METHOD.head || request.method == METHOD.options)
 
     }
 
